@@ -346,3 +346,103 @@ Section ArmGood.
           split; [exact Hbuf | right]. cbn [abs required]. auto.
   Qed.
 End ArmGood.
+
+Section ArmFeed.
+  Variables p0 p1 : byte.
+  Variable largest : N.
+  Hypothesis Hlargest : largest <= cap.
+  Notation fitsm := (fits largest).
+  Notation wfx := (wf_items p0 p1 fitsm).
+
+  Lemma wfx_fits items : wfx items -> forallb fitsm (map snd items) = true.
+  Proof.
+    unfold wf_items. induction items as [| it r IH]; [reflexivity |]. cbn [forallb map].
+    rewrite !andb_true_iff. intros [[_ Hf] Hr]. split; [exact Hf | apply IH; exact Hr].
+  Qed.
+
+  Lemma feed_arm_good : forall chunks sa got rest items tail fut,
+    forallb (chunk_fits largest) chunks = true ->
+    cleanb sa = true -> repr p0 p1 (abs sa) got rest -> wfx items -> filler_ok p0 tail = true ->
+    forallb fitsm (cur_msgs got rest) = true ->
+    rest ++ stream_of items tail = concat chunks ++ fut ->
+    exists sa' got' rest' items' tail' ds,
+      feed_arm p0 p1 largest sa chunks = ADone sa' ds /\ cleanb sa' = true /\ repr p0 p1 (abs sa') got' rest' /\
+      wfx items' /\ filler_ok p0 tail' = true /\ fut = rest' ++ stream_of items' tail' /\
+      cur_msgs got rest ++ map snd items = ds ++ cur_msgs got' rest' ++ map snd items'.
+  Proof.
+    induction chunks as [| c r IH]; intros sa got rest items tail fut Hc Hclean Hr Hi Ht Hcur Hs.
+    - cbn [feed_arm concat app] in *. subst fut. exists sa, got, rest, items, tail, [].
+      split; [reflexivity |]. split; [assumption |]. split; [assumption |]. split; [assumption |]. split; [assumption |]. split; reflexivity.
+    - cbn [forallb] in Hc. apply andb_true_iff in Hc. destruct Hc as [Hc Hcr].
+      unfold chunk_fits in Hc. apply N.leb_le in Hc. pose proof cap_eq as Hcap.
+      cbn [concat] in Hs. rewrite <- app_assoc in Hs.
+      assert (got <> [] -> len (got ++ rest) <= largest) as Hcur'.
+      { intros Hg. rewrite (cur_msgs_cons got rest Hg) in Hcur. cbn [forallb] in Hcur.
+        apply andb_true_iff in Hcur. destruct Hcur as [Hcur _]. apply N.leb_le. exact Hcur. }
+      assert (0 < cnt sa -> len c + cnt sa <= cap) as Hchunk.
+      { intros Hpos. destruct Hr as [Hbuf [(Hg & _) | (Hg & Hrest & _)]].
+        - exfalso. cbn [abs buf] in Hbuf. apply cleanb_iff in Hclean. destruct Hclean as (_ & Hcc & Hlen).
+          assert (len (take (cnt sa) (arr sa)) = cnt sa) as Hl by (apply len_take; lia).
+          rewrite Hbuf, Hg, len_nil in Hl. lia.
+        - specialize (Hcur' Hg). rewrite len_app in Hcur'. apply len_pos in Hrest.
+          cbn [abs buf] in Hbuf. apply cleanb_iff in Hclean. destruct Hclean as (_ & Hcc & Hlen).
+          assert (len (take (cnt sa) (arr sa)) = cnt sa) as Hl by (apply len_take; lia).
+          rewrite Hbuf in Hl. lia. }
+      destruct (on_data_arm_good p0 p1 largest Hlargest (fuel_for c) c sa got rest items tail (concat r ++ fut))
+        as (st' & got' & rest' & items' & tail' & ds & Ho & Hr' & Hi' & Ht' & Hf' & Htodo); auto.
+      { unfold fuel_for. lia. }
+      { lia. }
+      destruct (abs_o_done _ _ _ Ho) as (sa' & Hoa & Hclean' & Habs). subst st'.
+      cbn [feed_arm]. rewrite Hoa.
+      assert (forallb fitsm (cur_msgs got' rest') = true) as Hcur2.
+      { assert (forallb fitsm (cur_msgs got rest ++ map snd items) = true) as Hall.
+        { rewrite forallb_app, Hcur, (wfx_fits items Hi). reflexivity. }
+        rewrite Htodo, !forallb_app, !andb_true_iff in Hall. tauto. }
+      destruct (IH sa' got' rest' items' tail' fut Hcr Hclean' Hr' Hi' Ht' Hcur2 (eq_sym Hf'))
+        as (sa2 & got2 & rest2 & items2 & tail2 & ds2 & Ho2 & Hc2 & Hr2 & Hi2 & Ht2 & Hf2 & Htodo2).
+      rewrite Ho2. exists sa2, got2, rest2, items2, tail2, (ds ++ ds2).
+      split; [reflexivity |]. split; [assumption |]. split; [assumption |]. split; [assumption |]. split; [assumption |].
+      split; [assumption |]. rewrite Htodo, Htodo2, <- app_assoc. reflexivity.
+  Qed.
+
+  Lemma ainit_clean : cleanb ainit = true.
+  Proof. reflexivity. Qed.
+
+  (* C14 for the __arm__ configuration *)
+  Theorem reassembly_arm_x items tail chunks :
+    forallb (wf_item p0 p1) items = true -> forallb (msg_fits largest) items = true -> filler_ok p0 tail = true ->
+    forallb (chunk_fits largest) chunks = true ->
+    concat chunks = stream_of items tail ->
+    exists sa, feed_arm p0 p1 largest ainit chunks = ADone sa (map snd items) /\
+               cnt sa = 0 /\ areq sa = 0 /\ exc sa = false.
+  Proof.
+    intros Hi Hfit Ht Hc Hs.
+    assert (wfx items) as Hix.
+    { unfold wf_items. clear Hs. induction items as [| it r IH]; [reflexivity |].
+      cbn [forallb] in *. apply andb_true_iff in Hi. apply andb_true_iff in Hfit.
+      destruct Hi as [H1 H2]. destruct Hfit as [H3 H4]. rewrite H1, IH by assumption.
+      unfold msg_fits in H3. unfold fits. rewrite H3. reflexivity. }
+    destruct (feed_arm_good chunks ainit [] [] items tail [] Hc ainit_clean) as
+      (sa' & got' & rest' & items' & tail' & ds & Ho & Hclean & Hr' & Hi' & Ht' & Hf' & Htodo); auto.
+    { apply repr_idle. }
+    { cbn [app]. rewrite app_nil_r. symmetry. exact Hs. }
+    symmetry in Hf'. apply app_eq_nil in Hf'. destruct Hf' as [Hrest' Hstream'].
+    destruct (stream_nil p0 p1 fitsm items' tail' Hi' Hstream') as [-> ->].
+    destruct Hr' as [Hbuf [(Hg & _ & Hreq) | (_ & Hne & _)]]; [| congruence].
+    rewrite Hg in Hbuf, Htodo. unfold cur_msgs in Htodo. cbn [map app] in Htodo. rewrite ?app_nil_r in Htodo.
+    cbn [app] in Htodo. exists sa'. rewrite Ho, Htodo.
+    apply cleanb_iff in Hclean. destruct Hclean as (Hexc & Hcc & Hlen).
+    cbn [abs buf required] in Hbuf, Hreq.
+    assert (len (take (cnt sa') (arr sa')) = cnt sa') as Hl by (apply len_take; lia).
+    rewrite Hbuf, len_nil in Hl. repeat split; auto.
+  Qed.
+End ArmFeed.
+
+Theorem reassembly_arm p0 p1 lms items tail chunks :
+  let largest := eff_largest lms in
+  forallb (wf_item p0 p1) items = true -> forallb (msg_fits largest) items = true -> filler_ok p0 tail = true ->
+  forallb (chunk_fits largest) chunks = true ->
+  concat chunks = stream_of items tail ->
+  exists sa, feed_arm p0 p1 largest ainit chunks = ADone sa (map snd items) /\
+             cnt sa = 0 /\ areq sa = 0 /\ exc sa = false.
+Proof. intros largest. apply (reassembly_arm_x p0 p1 largest (eff_largest_le lms)). Qed.
